@@ -18,6 +18,113 @@ def describe(t):
     return f"{t['family']} {t['params']} refused={t['refused']} sites(kind,z*4,w*4)={sites}"
 
 
+def insitu_matrix(ctx):
+    runs = [
+        dict(label="bar/strong-current/large-steps (retried steps, mu != 0)", dev="bar", current=20.0, field=1.0, dt=0.25, dt_max=2.0, window=2, solve_time=1.2),
+        dict(label="bar/second solve() on the same TDGLSolver object", dev="bar", current=5.0, field=0.5, solve_time=0.3, scenario="second-solve"),
+        dict(label="barhole/seed_solution + thermalisation + time-dependent epsilon and field", dev="barhole", current=4.0, field=0.4, field_ramp=0.3,
+             epsilon_ramp=0.3, solve_time=0.3, skip_time=0.1, scenario="seeded"),
+        dict(label="tee/ramped currents/fixed step", dev="tee", current=6.0, current_ramp=0.2, field=0.2, adaptive=False, solve_time=0.25),
+        dict(label="bar/screening/fixed step", dev="bar", current=5.0, field=0.5, solve_time=0.08, screening=True, adaptive=False),
+    ]
+    if not ctx.quick:
+        runs += [
+            dict(label="cross/strong-current/retries/gamma=1", dev="cross", gamma=1.0, current=15.0, field=0.8, dt=0.25, dt_max=1.0, window=1, solve_time=2.0),
+            dict(label="barhole/second solve()/ramped field", dev="barhole", current=3.0, field=0.6, field_ramp=0.2, solve_time=0.3, scenario="second-solve"),
+            dict(label="bar/seed_solution/strong current", dev="bar", current=12.0, field=0.6, dt=0.125, dt_max=1.0, solve_time=1.0, solve_time2=1.0, scenario="seeded"),
+            dict(label="film/epsilon ramp/no terminals", dev="film", field=0.9, epsilon_ramp=0.2, solve_time=0.4, skip_time=0.05),
+            dict(label="barhole/screening/adaptive", dev="barhole", current=3.0, field=0.4, solve_time=0.1, screening=True, adaptive=True),
+            dict(label="tee/gamma=0/retries", dev="tee", gamma=0.0, current=15.0, field=0.5, dt=0.25, dt_max=1.0, solve_time=1.5),
+        ]
+    return runs
+
+
+SCREENING_KEY = "C02:screening-iterations-compound"
+
+
+def insitu(ctx):
+    """Solver level: 'whenever the update from step n to n+1 is answered' on the updates of REAL runs (wrappers on TDGLSolver.update and
+    solve_for_psi_squared; z, w recomputed from the documented formulas in exact arithmetic; TLC validates with the PsiUpdateTrace clauses)."""
+    runs = insitu_matrix(ctx)
+    res = rf.replay_all(ctx, [("call", dict(module="harness.psiupdate", func="insitu_run", args=a)) for a in runs])
+    traces, owner = [], []
+    for a, r in zip(runs, res):
+        for t in r["traces"]:
+            traces.append(t)
+            owner.append(a["label"])
+            ctx.note_case(("insitu", a["label"], t["level"], t["label"], t["family"]), nontrivial=True)
+    retried_mu = sum(1 for t in traces if t["level"] == "update" and t["retried"] and t["mu_max"] > 1e-3)
+    phases = sorted({p for r in res for p in r["phases"]})
+    ctx.cov["insitu"] = {"runs": len(runs), "updates_observed": sum(r["n_updates"] for r in res), "traces": len(traces),
+                         "retried_answered_updates_with_mu": retried_mu, "phases": phases, "max_screening_iterations": max(r["max_iterations"] for r in res),
+                         "refused_attempts_checked": sum(1 for t in traces if t["refused"])}
+    if retried_mu < 3:
+        raise core.MachineryFailure(f"C02 in situ: only {retried_mu} retried answered updates with mu != 0 (need >= 3)")
+    if "second-solve" not in phases or "seeded" not in phases:
+        raise core.MachineryFailure(f"C02 in situ: second solve() / seeded restart not observed ({phases})")
+    norm = [pu.to_tlc(t) for t in traces]
+    accepted = set()
+    B = 400
+    for n0 in range(0, len(norm), B):
+        acc, _ = ctx.validate_traces("PsiUpdateTrace", norm[n0:n0 + B], pu.trace_cfg(True), name="PsiUpdateTrace[C02 in situ]")
+        accepted |= {n0 + a for a in acc}
+    ctx.cov["traces_validated_against_impl"] += len(accepted)
+    rejected = [n for n in range(len(norm)) if n not in accepted]
+    reproduced = set()
+    if rejected:
+        clauses = {}
+        for n0 in range(0, len(rejected), B):
+            sub = rejected[n0:n0 + B]
+            _, r = ctx.validate_traces("PsiUpdateTrace", [norm[n] for n in sub], pu.diagnosis_cfg(), name="PsiUpdateTrace[in situ diagnosis]", count=False)
+            for line in r.printed():
+                if line.startswith('<<"CLAUSES"'):
+                    v = core.parse_tla_value(line)
+                    clauses[sub[v[1] - 1]] = [c for c, bit in zip(CLAUSES, v[2:]) if bit]
+        first_ok = {(owner[n], traces[n]["label"]) for n in accepted if traces[n]["family"] == "insitu-first-answered-attempt"}
+        groups = {}
+        for n in rejected:
+            t = traces[n]
+            cl = ",".join(clauses.get(n, ["?"]))
+            compound = (t["level"] == "update" and t["iterations"] > 1 and not t["retried"] and (owner[n], t["label"]) in first_ok
+                        and set(clauses.get(n, [])) <= {"AnsweredImpliesEquation", "AnsweredIsPhysicalBranch"})
+            key = f"{SCREENING_KEY}:{owner[n]}" if compound else f"C02:{cl}:insitu:{t['family']}:{owner[n]}"
+            groups.setdefault(key, []).append(n)
+        for key, ns in sorted(groups.items()):
+            t = traces[ns[0]]
+            if key.startswith(SCREENING_KEY):
+                reproduced.add(key)
+                what = (f"C02 AnsweredImpliesEquation at solver level: with screening, {len(ns)} answered updates of run '{owner[ns[0]]}' (first: {t['label']}, "
+                        f"{t['iterations']} screening iterations, dt {t['params']['dt']}) do not satisfy psi' + z|psi'|^2 = w for the psi^n, mu^n handed to update "
+                        f"(residual > 1e-9 relative; the first iteration's answer does): every screening iteration applies the Euler step to the "
+                        f"PREVIOUS iteration's psi and mu (update() overwrites psi, mu inside the loop) with |psi^n|^2 of the original state")
+            else:
+                what = (f"{key}: {len(ns)} in-situ traces of run '{owner[ns[0]]}' rejected by PsiUpdateTrace; first: {t['label']} level={t['level']} retried={t['retried']} "
+                        f"iterations={t['iterations']} dt={t['params']['dt']} worst residual quanta={t['worst']}")
+            ctx.violation(key, what, {"module": "PsiUpdateTrace", "run": owner[ns[0]], "steps": [traces[n]["label"] for n in ns[:20]],
+                                      "observation_first_sites": traces[ns[0]]["ev"][:5]})
+    ctx.cov["insitu"]["accepted"] = len(accepted)
+    ctx.cov["insitu"]["screening_finding_reproduced_on"] = sorted(reproduced)
+    if any(f.get("status") == "open" and f["key"].startswith(SCREENING_KEY) for f in ctx.findings) and not reproduced and not ctx.violations:
+        raise core.MachineryFailure(f"open finding {SCREENING_KEY} no longer reproduces on the real code: update known_findings.json")
+    upd = [n for n in sorted(accepted) if traces[n]["level"] == "update"]
+    if upd:
+        n = upd[len(upd) // 2]
+        bad = []
+        b = copy.deepcopy(norm[n]); b["ev"][len(b["ev"]) // 2]["e1"] = pu.TOL + 1; bad.append(b)
+        b = copy.deepcopy(norm[n]); b["ev"][0]["e2"] = pu.TOL + 1; bad.append(b)
+        b = copy.deepcopy(norm[n]); b["ev"][-1]["dpos"] = False; bad.append(b)
+        acc, _ = ctx.validate_traces("PsiUpdateTrace", bad, pu.trace_cfg(True), name="canary[C02 in situ]", count=False)
+        if acc:
+            raise core.MachineryFailure(f"C02 in situ: corrupted traces {sorted(acc)} accepted")
+        ctx.cov["canaries_rejected"] += len(bad)
+        t = traces[n]
+        ctx.sample({"in_situ": owner[n], "step": t["label"], "level": t["level"], "retried": t["retried"], "sites": len(t["ev"]), "worst_residual_quanta": t["worst"]})
+    elif not ctx.violations:
+        raise core.MachineryFailure("C02 in situ: no update-level trace accepted")
+    ctx.assume("in situ: the covariant Laplacian action is operators.psi_laplacian @ psi^n evaluated right after update() returns (link state of the "
+               "step's last Euler step); epsilon is solver.epsilon after the call; sites whose exact |D|/(2c+1)^2 < 1e-9 have a free verdict")
+
+
 def run(ctx):
     ctx.cov["bounds"] = {"grid": "z, w in (1/4)Z[i], |z|,|w| <= 2 (197 x 197 points)", "candidate roots": "s = k/16, k = 0..128",
                          "dt": "2^-10..2^3", "u": [1.0, 5.79], "gamma": [0.0] + pu.GAMMAS, "epsilon": [-1.0, 0.0, 0.5, 1.0],
@@ -136,6 +243,7 @@ def run(ctx):
         if acc:
             raise core.MachineryFailure(f"C02: corrupted traces {sorted(acc)} were accepted")
         ctx.cov["canaries_rejected"] += len(bad)
+    insitu(ctx)
     ctx.cov["rule"] = ("one case = one call of the real solve_for_psi_squared on a multi-site vector whose sites realise grid points emitted by "
                        "TLC (classes z=0 via gamma=0 or psi=0, w=0, tangent, two roots, no root) or tiny magnitudes; distinct = distinct "
                        "(parameters, site list); quick samples the grid (boundary of solvability first), thorough uses every grid point")
